@@ -5,8 +5,11 @@ function._takeslice(array, s, axis) for a unit-step slice with ANY integer (or a
     with length == len(range(n)[s]) and (length > 0 => start == range(n)[s].start); no exception.
     (slice.indices semantics: negative bounds count from the end, everything is clamped to [0, n].)
 numeric.normdim: index normalisation, IndexError exactly when out of range.
-function.broadcast_shapes: NumPy's right-aligned broadcasting rule, ValueError exactly when NumPy's rule is undefined
-    (BOUNDED: up to 3 shapes of rank <= 2, symbolic lengths).
+Array.__getitem__: axis accounting of basic indexing (BOUNDED patterns).
+Shape calculus (contracts/c07shape.py, all BOUNDED in rank / number of operands, symbolic lengths, real bodies incl. callees):
+    broadcast_shapes / broadcast_to / broadcast_arrays / _Wrapper.broadcasted_arrays, transpose / swapaxes / _Transpose.to_end / from_end,
+    _Concatenate.__init__ / concatenate / stack, expand_dims / insertaxis / _append_axes / _prepend_axes, unravel, get,
+    take (constant index array), reshape / ravel, typecast_arrays (kind join table).
 """
 import z3
 from pyvc.contract import Contract, State
@@ -268,11 +271,33 @@ def contracts():
         for hp in (False, True):
             for step in (None, 1):
                 cs.append(TakeSlice(hs, hp, step))
-    return cs
+    from contracts import c07shape
+    return cs + c07shape.contracts()
 
 
 TRUSTED = ['pyvc symbolic executor; _Wrapper(evaluable.Range, length) + start denotes the index array start..start+length-1; numpy.take(array, index, axis) selects those indices',
-           'specification: Python slice.indices / range(n)[s] semantics as the NumPy rule for basic slices']
-ASSUMPTIONS = ['constant (integer) axis length n >= 0', 'unit step; non-unit steps go through slice.indices + numpy.arange in the code (concrete) and are not under contract']
-NOT_COVERED = ['values at sample points, dtype promotion, every lowering rule relative to leading point axes, the ~100 other dispatch entries',
-               '__getitem__ axis accounting, take index normalisation, broadcast_to, concatenate, reshape (DESIGN 4.7; not built)']
+           'specification: Python slice.indices / range(n)[s] semantics as the NumPy rule for basic slices',
+           # ---- shape calculus (contracts/c07shape.py)
+           'shape model: a function array is known by (shape, dtype) only; Array.size is the product of the shape; Array.spaces/arguments are empty (argument bookkeeping is C13)',
+           '_Wrapper(lower, *args, shape=, dtype=) announces exactly the shape and dtype it is given (_Wrapper.__init__ is not under contract; Array.__init__ IS executed for _Transpose/_Concatenate)',
+           'Array.cast: identity on arrays, a 0-d int/bool/float constant for a Python number, a 1-d constant for a constant index array; its dtype=/ndim= checks raise ValueError (real body not executed: deep_reduce/numpy.stack)',
+           'NEP-18 dispatch: numpy.X(function array, ...) reaches __implementations__.X for X in take, reshape, ravel, transpose, swapaxes, repeat, concatenate, stack, broadcast_to; array + array reaches _Wrapper.broadcasted_arrays(evaluable.add, a, b)',
+           'util.sum / util.product are left folds of + / *; util.deep_reduce(numpy.stack, x) returns a flat constant index array or an Array unchanged; _join_arguments is C13 (returns the joined table, here empty)',
+           'numpy.prod of Python ints is their exact product (int64 overflow not modelled); numpy.argsort of a concrete list of ints is the stable sorting permutation; numpy.array(index array) copies; a[mask] += c increments exactly the masked entries; (a < c).any() is the existential',
+           'builtins.max/min with key= return the first extremal item; functools.reduce / operator.or_ / functools.partial by their definitions; divmod, // and % of axis lengths in characteristic form a == b*q + r, 0 <= r < b (L-DIVMOD, exact)',
+           'set of integers (pyvc.pybuiltins.IntSet): len = number of distinct members, discard removes equal members, next(iter(s)) is SOME member (arbitrary iteration order)',
+           'specification: NumPy shape rules written as spec functions np_broadcast / np_broadcast_to / np_transpose / np_concatenate / np_stack / numpy.expand_dims / numpy.take / numpy.reshape (one -1) and the kind join bool < int < float < complex; replays run the witness through real numpy',
+           'decorators @implements, @nutils_dispatch, @classmethod dropped (DESIGN 3); error-message construction opaque']
+ASSUMPTIONS = ['constant (integer) axis length n >= 0', 'unit step; non-unit steps go through slice.indices + numpy.arange in the code (concrete) and are not under contract',
+               'shape calculus: all axis lengths are constant non-negative integers (array-valued lengths are outside); requested lengths (broadcast_to, insertaxis, unravel) are >= 0',
+               'broadcast_shapes is called with at least one shape (with none it raises ValueError by design; numpy.broadcast_shapes() returns ())',
+               'reshape (live contracts): every axis length and every requested length is >= 1 -- zero-length axes and negative requested lengths are the PARKED contracts (candidate defects, notes/C07-shape.md)',
+               'transpose (live contracts): `axes` is None, a permutation (negative entries allowed) or contains an out-of-range axis -- repeated axes / wrong number of axes are PARKED (candidate defect)',
+               'unravel: axis >= 0 (a negative axis moves the second new axis to the front: documented as "axes axis and axis+1"); the check a*b == length is PARKED (not performed by the code)',
+               'take: constant 1-D integer index array; axis=None with lengths >= 1; get: scalar index, its range is checked at evaluation time (NormDim), not at build time',
+               'ranks, numbers of operands, axis arguments and the position of -1 are fixed per contract instance (all `bounded`, never counted as proved)']
+NOT_COVERED = ['values at sample points, every lowering rule relative to leading point axes (lower methods), the ~90 other dispatch entries (ufunc arithmetic beyond the shape/kind of broadcasted_arrays, reductions, einsum, linear algebra, choose, interp, searchsorted ...)',
+               'take with a function-array index or an index array of rank >= 2, boolean lists as indices (nutils raises a ufunc TypeError where numpy treats them as 0/1), compress, repeat of a non-singleton axis (NotImplementedError by design)',
+               'array-valued axis lengths; _takeslice with non-constant length; broadcast_to with an int instead of a tuple (TypeError in nutils)',
+               'reshape from rank 2 to (n, -1, n) and any structure beyond rank 3 / 3 requested axes: the no-AssertionError obligations time out (nonlinear arithmetic)',
+               'PARKED contracts (fail on the unchanged tree; candidate defects for the lead): ' + '; '.join(sorted(set(c.key() for c in __import__('contracts.c07shape', fromlist=['x']).parked_contracts())))]
